@@ -434,6 +434,50 @@ fn qs_std() -> Vec<f64> {
         f64::INFINITY, f64::NAN,
     ]
 }
+const GRID_MODES: [&str; 7] = [
+    "q-ascending", "q-descending", "q-shuffled", "q-duplicates", "q-nan-and-outside-interleaved",
+    "q-single", "q-empty",
+];
+/// the requested quantile list in a non-canonical arrangement: result[i] must be the estimate
+/// for qs[i], whatever the order of the request
+fn arrange(rng: &mut SplitMix64, mut qs: Vec<f64>, mode: usize) -> Vec<f64> {
+    match mode {
+        0 => qs,
+        1 => {
+            qs.reverse();
+            qs
+        }
+        2 => {
+            shuffle(rng, &mut qs);
+            qs
+        }
+        3 => {
+            let extra: Vec<f64> = qs.iter().copied().filter(|_| rng.chance(1, 2)).collect();
+            qs.extend(extra);
+            qs.push(1.0);
+            qs.push(0.0);
+            qs.push(1.0);
+            shuffle(rng, &mut qs);
+            qs
+        }
+        4 => {
+            qs.reverse();
+            for x in [f64::NAN, -3.0, 7.0, f64::INFINITY, f64::NAN, f64::NEG_INFINITY, 1.0, 0.0] {
+                let at = rng.below(qs.len() as u64 + 1) as usize;
+                qs.insert(at, x);
+            }
+            qs
+        }
+        5 => vec![*rng.pick(&qs)],
+        _ => Vec::new(),
+    }
+}
+/// mode drawn at random: ascending, descending, shuffled, duplicates, interleaved 2/12 each;
+/// single and empty 1/12 each
+fn draw_mode(rng: &mut SplitMix64) -> usize {
+    [0, 0, 1, 1, 2, 2, 3, 3, 4, 4, 5, 6][rng.below(12) as usize]
+}
+
 fn qs_short() -> Vec<f64> {
     vec![-1.0, 0.0, 0.1, 0.25, 0.5, 0.75, 0.9, 1.0, 2.0]
 }
@@ -531,7 +575,9 @@ fn generate(seed: u64, tier: Tier, em: &mut Emitter) {
                 let vals = pattern(&mut rng, n, pat);
                 let prog = json!(["add", ["new", fj(c)], fjs(&vals)]);
                 let nt = nfinite(&vals) >= 2;
-                em.case("td", json!([prog, fjs(&qs_std()), fjs(&xs_for(&vals))]), nt, &["tiny", PATS[pat]]);
+                let gm = (n + pat) % GRID_MODES.len();
+                let qs = arrange(&mut rng, qs_std(), gm);
+                em.case("td", json!([prog, fjs(&qs), fjs(&xs_for(&vals))]), nt, &["tiny", PATS[pat], GRID_MODES[gm]]);
             }
         }
     }
@@ -554,8 +600,10 @@ fn generate(seed: u64, tier: Tier, em: &mut Emitter) {
                 let n = rng.below(40) as usize;
                 let vals = pattern(&mut rng, n, pat);
                 let prog = json!(["add", ["new", fj(c)], fjs(&vals)]);
-                em.case("td", json!([prog, fjs(&qs_std()), fjs(&xs_for(&vals))]), nfinite(&vals) >= 2,
-                        &["small-compression", PATS[pat]]);
+                let gm = draw_mode(&mut rng);
+                let qs = arrange(&mut rng, qs_std(), gm);
+                em.case("td", json!([prog, fjs(&qs), fjs(&xs_for(&vals))]), nfinite(&vals) >= 2,
+                        &["small-compression", PATS[pat], GRID_MODES[gm]]);
             }
         }
     }
@@ -572,8 +620,10 @@ fn generate(seed: u64, tier: Tier, em: &mut Emitter) {
                 } else {
                     json!(["add", ["new", fj(c)], fjs(&vals)])
                 };
-                em.case("td", json!([prog, fjs(&qs_std()), fjs(&xs_for(&vals))]), true,
-                        &["medium", PATS[pat]]);
+                let gm = draw_mode(&mut rng);
+                let qs = arrange(&mut rng, qs_std(), gm);
+                em.case("td", json!([prog, fjs(&qs), fjs(&xs_for(&vals))]), true,
+                        &["medium", PATS[pat], GRID_MODES[gm]]);
             }
         }
     }
@@ -587,9 +637,10 @@ fn generate(seed: u64, tier: Tier, em: &mut Emitter) {
         let vals = pattern(&mut rng, n, pat);
         let parts = 1 + rng.below(5) as usize;
         let (prog, nonempty) = partition_prog(&mut rng, c, &vals, parts);
-        let qs = if i % 4 == 0 { qs_std() } else { qs_short() };
+        let gm = draw_mode(&mut rng);
+        let qs = arrange(&mut rng, if i % 4 == 0 { qs_std() } else { qs_short() }, gm);
         em.case("td", json!([prog, fjs(&qs), fjs(&xs_for(&vals))]), nfinite(&vals) >= 2 && nonempty >= 2,
-                &["partitioned", PATS[pat]]);
+                &["partitioned", PATS[pat], GRID_MODES[gm]]);
     }
 
     // ---- 5. weighted adds (weights >= 1) and digests of different compressions merged
@@ -609,8 +660,10 @@ fn generate(seed: u64, tier: Tier, em: &mut Emitter) {
         let prog = json!(["merge", ["addw", ["new", fj(c)], vws], ["add", ["new", fj(c2)], fjs(&other)]]);
         let mut all = vals.clone();
         all.extend(&other);
-        em.case("td", json!([prog, fjs(&qs_short()), fjs(&xs_for(&all))]), nfinite(&all) >= 2,
-                &["weighted", "mixed-compression"]);
+        let gm = draw_mode(&mut rng);
+        let qs = arrange(&mut rng, qs_short(), gm);
+        em.case("td", json!([prog, fjs(&qs), fjs(&xs_for(&all))]), nfinite(&all) >= 2,
+                &["weighted", "mixed-compression", GRID_MODES[gm]]);
     }
 
     // ---- 5b. fractional weights (k_size's .max(1.0) matters only here): agreement only
@@ -626,8 +679,10 @@ fn generate(seed: u64, tier: Tier, em: &mut Emitter) {
             .collect();
         let base = json!(["addw", ["new", fj(c)], vws]);
         let prog = if rng.chance(1, 2) { json!(["merge", ["new", fj(c)], base]) } else { base };
-        em.case("tdw", json!([prog, fjs(&qs_short()), fjs(&xs_for(&vals))]), nfinite(&vals) >= 2,
-                &["fractional-weights", "agreement-only"]);
+        let gm = draw_mode(&mut rng);
+        let qs = arrange(&mut rng, qs_short(), gm);
+        em.case("tdw", json!([prog, fjs(&qs), fjs(&xs_for(&vals))]), nfinite(&vals) >= 2,
+                &["fractional-weights", "agreement-only", GRID_MODES[gm]]);
     }
 
     // ---- 6. monotonicity in q (the open known finding lives here)
@@ -652,19 +707,20 @@ fn generate(seed: u64, tier: Tier, em: &mut Emitter) {
         let vals = pattern(&mut rng, n, pat);
         let parts = if rng.chance(1, 4) { 0 } else { 1 + rng.below(7) as usize };
         let fan = if rng.chance(1, 2) { 0 } else { 1 + rng.below(4) as usize };
-        let qs = qs_short();
+        let gm = draw_mode(&mut rng);
+        let qs = arrange(&mut rng, qs_short(), gm);
         match i % 5 {
             0 | 1 | 2 => {
                 let variant = ["glob", "globl", "med"][i % 3];
                 em.case("pipe", json!([variant, fj(c), fjs(&vals), fjs(&qs), parts, fan]),
-                        nfinite(&vals) >= 2 && parts >= 2 && n >= 2, &["pipeline", variant, PATS[pat]]);
+                        nfinite(&vals) >= 2 && parts >= 2 && n >= 2, &["pipeline", variant, PATS[pat], GRID_MODES[gm]]);
             }
             _ => {
                 let variant = if i % 5 == 3 { "vals" } else { "gbkl" };
                 let nk = 1 + rng.below(3) as i64;
                 let kvs: Vec<Value> = vals.iter().map(|&v| json!([rng.range(0, nk - 1), fj(v)])).collect();
                 em.case("pipe", json!([variant, fj(c), kvs, fjs(&qs), parts, 0]),
-                        nfinite(&vals) >= 2 && parts >= 2 && n >= 2, &["pipeline", variant, PATS[pat]]);
+                        nfinite(&vals) >= 2 && parts >= 2 && n >= 2, &["pipeline", variant, PATS[pat], GRID_MODES[gm]]);
             }
         }
     }
@@ -703,12 +759,14 @@ fn generate(seed: u64, tier: Tier, em: &mut Emitter) {
         }
         let parts = 1 + rng.below(3) as usize;
         let (prog, _) = partition_prog(&mut rng, c, &vals, parts);
+        let gm = draw_mode(&mut rng);
+        let qs = arrange(&mut rng, qs_std(), gm);
         if both_zeros {
-            em.case("tdx", json!([prog, fjs(&qs_std()), fjs(&xs_for(&vals))]), nfinite(&vals) >= 2,
-                    &["extreme-magnitude", "signed-zeros", "agreement-not-required"]);
+            em.case("tdx", json!([prog, fjs(&qs), fjs(&xs_for(&vals))]), nfinite(&vals) >= 2,
+                    &["extreme-magnitude", "signed-zeros", "agreement-not-required", GRID_MODES[gm]]);
         } else {
-            em.case("td", json!([prog, fjs(&qs_std()), fjs(&xs_for(&vals))]), nfinite(&vals) >= 2,
-                    &["extreme-magnitude"]);
+            em.case("td", json!([prog, fjs(&qs), fjs(&xs_for(&vals))]), nfinite(&vals) >= 2,
+                    &["extreme-magnitude", GRID_MODES[gm]]);
         }
     }
 
@@ -726,7 +784,11 @@ fn generate(seed: u64, tier: Tier, em: &mut Emitter) {
             a += 2;
         }
         let b = rng.below(n);
-        em.case("stat", json!([fj(c), n, a, b, parts, fjs(&qs_grid(100))]), true,
+        let mut grid = qs_grid(100);
+        if parts % 2 == 1 {
+            shuffle(&mut rng, &mut grid); // the request order must not matter
+        }
+        em.case("stat", json!([fj(c), n, a, b, parts, fjs(&grid)]), true,
                 &["sampled-rank-error", if n <= 2000 { "model-agreement" } else { "property-only" }]);
     }
 
